@@ -41,13 +41,13 @@ func verifWorkerDelay(line int) {
 }
 
 // Consumer events: kind 0 = a job result was received (line = its first line), kind 1 = `done` was received.
-type VerifEvent struct {
+type VerifConsumerEvent struct {
 	Kind int
 	Line int
 }
 
 var verifLogMutex sync.Mutex
-var verifLog []VerifEvent
+var verifLog []VerifConsumerEvent
 var verifLogEnabled bool
 
 func VerifEnableConsumerLog(on bool) {
@@ -57,7 +57,7 @@ func VerifEnableConsumerLog(on bool) {
 	verifLogMutex.Unlock()
 }
 
-func VerifTakeConsumerLog() []VerifEvent {
+func VerifTakeConsumerLog() []VerifConsumerEvent {
 	verifLogMutex.Lock()
 	defer verifLogMutex.Unlock()
 	out := verifLog
@@ -68,7 +68,7 @@ func VerifTakeConsumerLog() []VerifEvent {
 func verifConsumerEvent(kind int, line int) {
 	verifLogMutex.Lock()
 	if verifLogEnabled {
-		verifLog = append(verifLog, VerifEvent{Kind: kind, Line: line})
+		verifLog = append(verifLog, VerifConsumerEvent{Kind: kind, Line: line})
 	}
 	verifLogMutex.Unlock()
 }
